@@ -390,3 +390,89 @@ pub fn wide_lists(thorough: bool, seed: usize) -> Vec<Vec<Vec<u8>>> {
 pub fn faildepth(args: &Args) -> Report {
     crate::misc::faildepth(args)
 }
+
+
+/// B9: the representation invariant `dfa_wf` that unit u3_dfa assumes of a built DFA, executed
+/// clause by clause on real DFAs through hook H1.
+pub fn repr(args: &Args) -> Report {
+    let thorough = args.thorough();
+    let seed = args.num("seed", 0);
+    let rep = Report::new(
+        "repr[dfa]",
+        format!("pattern families small,abc,ci,bytes,wide (tier {}) x 3 match kinds x start kinds U/A/B x byte classes on/off x ci: every clause of dfa_wf (contracts/units/u3_dfa.rs.tpl) on the whole transition table", args.get("tier", "quick")),
+        "case = one table entry / state of one real DFA".into(),
+    );
+    for fname in ["small", "abc", "ci", "bytes", "wide"] {
+        let mut lists = if fname == "wide" { wide_lists(thorough, seed) } else { family(fname, thorough, seed).lists };
+        if fname == "small" {
+            lists.push(vec![]);
+            lists.push(vec![vec![]]);
+        }
+        par_for(&lists, |pats| {
+            for kind in [Kind::Std, Kind::LF, Kind::LL] {
+                for (sk, bc, ci) in [(aho_corasick::StartKind::Unanchored, true, false), (aho_corasick::StartKind::Both, false, false), (aho_corasick::StartKind::Anchored, true, true), (aho_corasick::StartKind::Both, true, fname == "ci")] {
+                    let d = match aho_corasick::dfa::Builder::new().match_kind(crate::eng::mk_real(kind)).start_kind(sk).byte_classes(bc).ascii_case_insensitive(ci).build(pats) {
+                        Ok(d) => d,
+                        Err(_) => continue,
+                    };
+                    let [stride2, alphabet_len, nlists, npat] = d.verif_dims();
+                    let trans = d.verif_trans();
+                    let sp = d.verif_special();
+                    let bad = |clause: &str, detail: String| {
+                        rep.fail(Fail {
+                            key: format!("repr:dfa:{}:{}:{}", clause, kind.name(), show_pats(&pats[..pats.len().min(4)])),
+                            what: format!("dfa_wf clause '{}' fails for {} (kind {}, start kind {:?}, byte classes {}): {}", clause, show_pats(&pats[..pats.len().min(4)]), kind.name(), sk, bc, detail),
+                            argv: vec!["repr".into()],
+                        });
+                    };
+                    if stride2 > 9 {
+                        bad("stride2 <= 9", format!("{}", stride2));
+                        continue;
+                    }
+                    let stride = 1usize << stride2;
+                    let valid = |s: usize| s % stride == 0 && s + stride <= trans.len() && s != stride;
+                    if trans.len() < 2 * stride || trans.len() > 0x7FFF_FFFF || alphabet_len > stride {
+                        bad("table size", format!("len {} stride {} alphabet {}", trans.len(), stride, alphabet_len));
+                    }
+                    for b in 0..=255u8 {
+                        if d.verif_class(b) as usize >= stride {
+                            bad("byte classes fit in a row", format!("byte {} class {}", b, d.verif_class(b)));
+                        }
+                    }
+                    for (i, t) in trans.iter().enumerate() {
+                        if !valid(t.as_usize()) {
+                            bad("every table entry is a state id", format!("trans[{}] = {}", i, t.as_usize()));
+                            break;
+                        }
+                        if i < stride && t.as_usize() != 0 {
+                            bad("the dead state is absorbing", format!("trans[{}] = {}", i, t.as_usize()));
+                        }
+                    }
+                    for s in &sp[2..] {
+                        if !valid(s.as_usize()) {
+                            bad("special ids are state ids", format!("{}", s.as_usize()));
+                        }
+                    }
+                    if sp[1].as_usize() > sp[0].as_usize() {
+                        bad("max_match_id <= max_special_id", format!("{} {}", sp[1].as_usize(), sp[0].as_usize()));
+                    }
+                    let mut s = 2 * stride;
+                    while s <= sp[1].as_usize() {
+                        if s < 2 * stride || s / stride - 2 >= nlists || d.verif_match_list(s / stride - 2).is_empty() {
+                            bad("match states index non-empty match lists", format!("state {}", s));
+                            break;
+                        }
+                        s += stride;
+                    }
+                    for i in 0..nlists {
+                        if d.verif_match_list(i).iter().any(|p| p.as_usize() >= npat) {
+                            bad("listed pattern ids are valid", format!("list {}", i));
+                        }
+                    }
+                    rep.cases_n(trans.len(), trans.len());
+                }
+            }
+        });
+    }
+    rep
+}
